@@ -3,21 +3,24 @@ import EinxModel.Proofs.NotationPrintParse
 import EinxModel.Proofs.NotationFinishNF
 import EinxModel.Proofs.NotationPrintConflict
 import EinxModel.Proofs.NotationPrintShape
+import EinxModel.Proofs.NotationPrintAdj
 /-!
 # M1 Notation — re-parsing the printed text of a printable expression (assembly)
 -/
 namespace Einx.Notation
 
-/-- `parse_op(str(t))` succeeds for a printable `t` and returns `t` up to positions and fresh names. -/
-theorem parseOp_print {t : Expr} (h : Printable t = true) : ∃ y, parseOp t.print = .ok y ∧ y.shape = t.shape := by
-  simp only [Printable, Bool.and_eq_true, Bool.not_eq_true', List.isEmpty_iff] at h
-  obtain ⟨⟨hroot, hadj⟩, hconf⟩ := h
-  obtain ⟨toks, T, hlex, htree, hE⟩ := tree_of_print t hroot hadj
-  obtain ⟨x, hx, hshape, hfresh⟩ := parse_printed t hroot T hE
+/-- From the token tree of the printed text and the tree `parse` returns for it to the result of `parse_op`. -/
+theorem parseOp_print_core {t : Expr} (hroot : PRoot t = true) (hconf : conflictNames (occs [] false t) = [])
+    {toks : List Token} {T : List Tok} {x : Expr} (hlex : lex t.print = .ok toks)
+    (htree : buildTree (dedupSpaces toks false) [] [] = .ok T) (hx : parse T 0 (lastEnd T 0) false = .ok x)
+    (hshape : x.shape = (preTree t).shape) (hfresh : ValuedFresh x) :
+    ∃ y, parseOp t.print = .ok y ∧ y.shape = t.shape := by
   have hpre := preTree_PRoot hroot
   have hq : QRoot x = true := by rw [← QRoot_shape, hshape, QRoot_shape]; exact hpre.1
   obtain ⟨y, hy, hys, hocc⟩ := finish_nf (posForLiteral (lit "->") t.print 0) x hq
-  have hc := conflict_free_of_shape hroot hshape hfresh hconf
+  have hG : G true true true x = true := ((NF.parse_G T 0 (lastEnd T 0) false).of_eq hx).1
+  have hnd : (Fresh.vnames x).Nodup := Fresh.parse_fresh_nodup hlex htree hx
+  have hc := conflict_free_of_shape hroot hshape hfresh hG hnd hconf
   refine ⟨y, ?_, ?_⟩
   · rw [parseOp_eq, hlex]
     simp only
@@ -29,5 +32,21 @@ theorem parseOp_print {t : Expr} (h : Printable t = true) : ∃ y, parseOp t.pri
     exact checkBrackets_eq_ok (by rw [hocc]; exact hc)
   · rw [hys, ← canonShape_shape, hshape, canonShape_shape]
     exact hpre.2
+
+/-- `parse_op(str(t))` succeeds for a printable `t` and returns `t` up to positions and fresh names. -/
+theorem parseOp_print {t : Expr} (h : Printable t = true) : ∃ y, parseOp t.print = .ok y ∧ y.shape = t.shape := by
+  simp only [Printable, Bool.and_eq_true, List.isEmpty_iff] at h
+  obtain ⟨hroot, hconf⟩ := h
+  cases hadj : hasAdjSpaces (textsL t.ptree) with
+  | false =>
+    obtain ⟨toks, T, hlex, htree, hE⟩ := tree_of_print t hroot hadj
+    obtain ⟨x, hx, hshape, hfresh⟩ := parse_printed t hroot T hE
+    exact parseOp_print_core hroot hconf hlex htree hx hshape hfresh
+  | true =>
+    -- the left side of `->` ends with an empty argument: `"a,  -> b"`; the duplicate-space pass drops one of the two spaces
+    obtain ⟨s1, s2, b, e, A, rfl, _, _, hA, hna⟩ := Adj.root_adj hroot hadj
+    obtain ⟨toks, T, hlex, htree, hE⟩ := tree_of_print_adj hroot hA hna
+    obtain ⟨x, hx, hshape, hfresh⟩ := parse_printed_adj hroot T hE
+    exact parseOp_print_core hroot hconf hlex htree hx hshape hfresh
 
 end Einx.Notation
